@@ -319,7 +319,22 @@ def c12_reshape_allocation(F, rep):
         for m in find(it["body"], "match"):
             if not (is_node(m[1]) and m[1][0] == "tuple" and len(m[1][1]) == 3):
                 continue
-            sc = [re.sub(r"\s", "", render(x)) for x in m[1][1]]
+            # a scrutinee component may be a named local standing for shape[0] / shape[1] (`let (rows, cols) = (shape[0], shape[1]);`): read it as its initialiser
+            fn_lets = {}
+            for st_ in walk(it["body"]):
+                if is_node(st_) and st_[0] == "let" and len(st_) > 2 and st_[2] is not None and is_node(st_[1]):
+                    if st_[1][0] == "pident":
+                        fn_lets.setdefault(st_[1][1], st_[2])
+                    elif st_[1][0] == "ptuple" and is_node(st_[2]) and st_[2][0] == "tuple" and len(st_[1][1]) == len(st_[2][1]):
+                        for p_, v_ in zip(st_[1][1], st_[2][1]):
+                            if is_node(p_) and p_[0] == "pident":
+                                fn_lets.setdefault(p_[1], v_)
+            def _res(x):
+                for _ in range(3):
+                    if is_node(x) and x[0] == "path" and x[1] in fn_lets:
+                        x = fn_lets[x[1]]
+                return x
+            sc = [re.sub(r"\s", "", render(_res(x))) for x in m[1][1]]
             if not (re.search(r"\[0\]$", sc[1]) and re.search(r"\[1\]$", sc[2])):
                 continue
             for a in m[2]:
